@@ -207,7 +207,8 @@ def rule_c07_r4(model: Model) -> RuleResult:
         for f in collect_functions(model, cls):
             cfg = cfg_of(model, f)
             acc = Accumulators(model, f, cfg)
-            nz = Normalizer(model, f, cfg)
+            base_nz = Normalizer(model, f, cfg)
+            nz = Normalizer(model, f, cfg, name_hook=lambda nm, node: acc.descriptor(nm, base_nz) if nm in acc.names else None)
             for (n, call, q) in error_ctor_calls(model, f):
                 if q != f'{ERRMOD}.ProductErrorNode':
                     continue
@@ -243,6 +244,9 @@ def rule_c07_r4(model: Model) -> RuleResult:
                         r.sample({'function': f.qualname, fld: form})
                         if fld == 'missing' and re.search(r'set\(self\.\w+\.keys\(\)\) Sub set\(VAL\.keys\(\)\)', form):
                             r.ok()
+                        elif fld == 'missing' and re.match(r'^(SET|LIST)\(ELEM\(self\.fields\)\.name if ', form) \
+                                and 'not ELEM(self.fields).name in ACC' in form and 'default' in form:
+                            r.ok()      # comprehension over the field table: required, not seen, no default
                         elif fld == 'extra' and re.search(r'set\(VAL\.keys\(\)\) Sub set\(self\.\w+\.keys\(\)\)', form):
                             r.ok()
                         else:
